@@ -18,7 +18,7 @@ type C14Case struct {
 	Format string `json:"format"` // gob | npy | csv | pb | fb
 	DT     string `json:"dt"`
 	A      Opnd   `json:"a"`
-	Then   string `json:"then,omitempty"` // the decoded tensor is written and read once more in this format
+	Then   string `json:"then,omitempty"`   // the decoded tensor is written and read once more in this format
 	Reader string `json:"reader,omitempty"` // npy/csv: how the stream delivers (""|half|onebyte|bufio16|dataerr)
 	// UsedRecv: the receiver was decoded into before (a masked tensor with as many elements)
 	UsedRecv bool `json:"usedRecv,omitempty"`
